@@ -23,3 +23,7 @@ func reducerBroadcasted(y tensor.Tensor, x tensor.Tensor, dim int) (o tensor.Ten
 
 	return o, nil
 }
+
+func lastDimUnSqueezed(t tensor.Tensor) (o tensor.Tensor, err error) {
+	return t.UnSqueeze(len(t.Shape()))
+}
